@@ -28,7 +28,7 @@ META = dict(
     ),
 )
 META["explanation"] += (
-    " Added after the independent seeding rounds 2-3: " 'R5 the uniqueness scan behind the expansion of a forced 0xFF: over all Option<token id> slots, Some only for single-token ranges and only if the slot is None or equal, a conflict result is final, expansion only on the Some arm. R6 token healing (chop_tokens) returns the accumulated token_len of the removed tokens.'
+    " Added after the independent seeding rounds 2-3: " 'R5 the uniqueness scan behind the expansion of a forced 0xFF: over all Option<token id> slots, Some only for single-token ranges and only if the slot is None or equal, a conflict result is final, expansion only on the Some arm. R6 token healing (chop_tokens) returns the accumulated token_len of the removed tokens. R7 (round 4) the two pending-text slices of process_prompt are T[P..P+G-C] and T[P+G-C..P] of T = prompt ++ forced bytes (bounds evaluated as linear forms over the lengths, flow-sensitive in the length of the prompt buffer).'
 )
 
 
@@ -218,6 +218,177 @@ def r6_chop_tokens(ctx):
                   "chop_tokens returns a byte count that is not the accumulated token_len of the tokens it tells the caller to remove "
                   "(e.g. the length of the extendable tail): when the tail starts mid-token, prompt text is lost and the next mask "
                   "is computed for a too-short pending prefix", site=b.where(bad[0]) if bad else b.where())
+
+
+def prompt_slices_rule(ctx, R):
+    """R7: process_prompt tokenises T = prompt ++ forced bytes, gives back the tokens of T[..|T|-C] (C = the bytes chopped
+    for token healing) and keeps the rest pending: `llm_bytes` (forced text already owed to the model) must be
+    T[P .. P+G-C] and, when the chop reaches into the prompt, `grm_prefix` must be T[P+G-C .. P]  (P, G = lengths of the
+    prompt and of the forced bytes).  The slice bounds are evaluated as linear forms over P, G, C — `len()` of the prompt
+    buffer is P before the forced bytes are appended and P+G after — so the rule is about the values, not the spelling.
+    Slices the evaluator cannot place (the leading-space hack on `decoded`) are not judged."""
+    from .. import repcount as RC
+    P = ctx.prog
+    b = ctx.try_body(TP + "::process_prompt", R)
+    if b is None:
+        return
+
+    def single_def(l):
+        ds = [d for d in b.defs().get(l, []) if d[2] != "partial"]
+        return ds[0] if len(ds) == 1 else None
+
+    def root_buf(e, depth=0):
+        """the Vec local a slice/borrow expression views, or ('G',) for Parser::get_bytes()"""
+        if depth > 8:
+            return None
+        if e[0] == "call":
+            last = e[1].rsplit("::", 1)[-1]
+            if e[1].endswith("Parser::get_bytes"):
+                return ("G",)
+            if last in ("deref", "as_slice", "as_ref", "borrow", "deref_mut", "clone", "to_vec", "to_owned", "as_bytes") and e[2]:
+                return root_buf(e[2][0], depth + 1)
+            return None
+        if e[0] in ("ref", "place") and isinstance(e[1][0], int):
+            l = e[1][0]
+            d = single_def(l)
+            if d is None:
+                return ("local", l)
+            if d[2] == "call":
+                t = d[3]
+                df = t["f"].get("def", "")
+                if df.endswith("TokTrie::decode_raw"):
+                    return ("PB", l)
+                if df.endswith("Parser::get_bytes"):
+                    return ("G",)
+                if df.rsplit("::", 1)[-1] in ("to_vec", "to_owned", "clone", "deref", "from") and t["args"]:
+                    inner = root_buf(b.expr(t["args"][0]), depth + 1)
+                    if inner == ("G",):
+                        return ("G",)
+                    return inner if inner and inner[0] == "PB" and df.rsplit("::", 1)[-1] == "deref" else ("local", l)
+            if d[2] == "assign" and d[3]["rv"] in ("use", "ref", "cast"):
+                ex = b.expr_rvalue(d[3])
+                if ex[0] in ("ref", "place") and ex[1][0] == l:
+                    return ("local", l)
+                return root_buf(ex, depth + 1)
+            return ("local", l)
+        if e[0] == "cast":
+            return root_buf(e[1], depth + 1)
+        return None
+
+    # the append of the forced bytes to the prompt buffer
+    ext = []
+    pb = None
+    for bi, t in b.calls():
+        d = t["f"].get("def", "")
+        if d.rsplit("::", 1)[-1] in ("extend_from_slice", "extend", "append") and len(t["args"]) >= 2:
+            tgt = root_buf(b.expr(t["args"][0]))
+            src = root_buf(b.expr(t["args"][1]))
+            if tgt and tgt[0] == "PB" and src == ("G",):
+                ext.append(bi)
+                pb = tgt[1]
+    # only the buffer that receives the forced bytes is the prompt buffer (other decode_raw results are not)
+    _rb = root_buf
+
+    def root_buf(e, depth=0):  # noqa: F811
+        r = _rb(e, depth)
+        if r and r[0] == "PB" and r[1] != pb:
+            return ("local", r[1])
+        return r
+    if len(ext) != 1:
+        ctx.info(R, "process_prompt: the append of the forced bytes to the decoded prompt was not recognised (not judged)")
+        return
+    ext_bi = ext[0]
+    after_ext = b.reachable(ext_bi) - {ext_bi}
+
+    def buf_len(buf, at):
+        if buf == ("G",):
+            return RC.lin(G=1)
+        if buf and buf[0] == "PB":
+            if at not in after_ext and at != ext_bi:
+                return RC.lin(P=1)
+            if at not in b.reachable(0, cut_blocks=[ext_bi]):
+                return RC.ladd(RC.lin(P=1), RC.lin(G=1))
+        return None
+
+    def num(e, depth=0):
+        if depth > 14:
+            return None
+        k = e[0]
+        if k == "const" and isinstance(e[1], int):
+            return RC.lin(e[1])
+        if k == "cast":
+            return num(e[1], depth + 1)
+        if k == "bin" and e[1] in ("Add", "Sub"):
+            x, y = num(e[2], depth + 1), num(e[3], depth + 1)
+            return None if x is None or y is None else RC.ladd(x, y, 1 if e[1] == "Add" else -1)
+        if k == "call":
+            last = e[1].rsplit("::", 1)[-1]
+            if last == "len" and e[2] and len(e) > 3:
+                return buf_len(root_buf(e[2][0]), e[3])
+            if last in ("saturating_sub", "wrapping_sub") and len(e[2]) == 2:
+                x, y = num(e[2][0], depth + 1), num(e[2][1], depth + 1)
+                return None if x is None or y is None else RC.ladd(x, y, -1)
+        if k == "place":
+            p = e[1]
+            # field 1 of tokenize_and_chop's result = the chopped byte count
+            if len(p) == 2 and isinstance(p[1], dict) and p[1].get("f") == 1:
+                d = single_def(p[0])
+                if d and d[2] == "call" and d[3]["f"].get("def", "").endswith("TokenParser::tokenize_and_chop"):
+                    return RC.lin(C=1)
+            if len(p) == 1:
+                d = single_def(p[0])
+                if d and d[2] == "assign":
+                    ex = b.expr_rvalue(d[3])
+                    if ex != e:
+                        return num(ex, depth + 1)
+        return None
+
+    spec = {"llm_bytes": (RC.lin(P=1), RC.ladd(RC.ladd(RC.lin(P=1), RC.lin(G=1)), RC.lin(C=1), -1)),
+            "grm_prefix": (RC.ladd(RC.ladd(RC.lin(P=1), RC.lin(G=1)), RC.lin(C=1), -1), RC.lin(P=1))}
+    judged = {"llm_bytes": 0, "grm_prefix": 0}
+    for bi, si, st in b.statements():
+        if st["s"] != "assign":
+            continue
+        fs = F.place_fields(st["p"])
+        if not fs or fs[-1][0] != TP or fs[-1][1] not in spec:
+            continue
+        fld = fs[-1][1]
+        e = b.expr_rvalue(st["r"])
+        # to_vec(index(&buf, range))
+        while e[0] == "call" and e[1].rsplit("::", 1)[-1] in ("to_vec", "to_owned", "into", "from", "clone") and e[2]:
+            e = e[2][0]
+        if e[0] == "deref":
+            e = e[1]
+        if not (e[0] == "call" and e[1].rsplit("::", 1)[-1] in ("index", "index_mut") and len(e[2]) == 2):
+            continue
+        buf = root_buf(e[2][0])
+        rng = e[2][1]
+        at = e[3]
+        if not (rng[0] == "agg" and isinstance(rng[1], dict)) or buf is None or buf[0] not in ("PB", "G"):
+            continue
+        kind = rng[1].get("adt", "").rsplit("::", 1)[-1]
+        full = buf_len(buf, at)
+        if kind == "Range" and len(rng[2]) == 2:
+            lo, hi = num(rng[2][0]), num(rng[2][1])
+        elif kind == "RangeTo" and len(rng[2]) == 1:
+            lo, hi = RC.lin(0), num(rng[2][0])
+        elif kind == "RangeFrom" and len(rng[2]) == 1:
+            lo, hi = num(rng[2][0]), full
+        else:
+            continue
+        if lo is None or hi is None:
+            ctx.info(R, "process_prompt: bounds of the %s slice at %s not interpretable (not judged)" % (fld, b.where(bi)))
+            continue
+        off = RC.lin(P=1) if buf == ("G",) else RC.lin(0)
+        lo, hi = RC.ladd(lo, off), RC.ladd(hi, off)
+        judged[fld] += 1
+        want = spec[fld]
+        ctx.check((lo, hi) == want, R, "prompt-slices:%s" % fld,
+                  "%s = T[%s .. %s] of T = prompt ++ forced bytes (P, G their lengths, C the healed bytes)" % (fld, RC.lfmt(lo), RC.lfmt(hi)),
+                  "process_prompt sets %s to T[%s .. %s] of T = prompt ++ forced bytes, expected T[%s .. %s] (P = prompt length, G = forced bytes, "
+                  "C = bytes chopped for token healing): returned prompt + pending text no longer equals prompt + forced bytes — text is lost or invented"
+                  % (fld, RC.lfmt(lo), RC.lfmt(hi), RC.lfmt(want[0]), RC.lfmt(want[1])), site=b.where(bi))
+    ctx.floor(R, "healing slices of process_prompt placed in prompt ++ forced-bytes coordinates", sum(1 for v in judged.values() if v), 2)
 
 
 def run(ctx):
@@ -471,3 +642,5 @@ def run(ctx):
             ctx.ok("C13-R4", "prefix-passed-to-compute_bias", "compute_bias receives a whole-value view of that local")
         else:
             ctx.violation("C13-R4", "anchor-missing:compute_mask_inner.prefix", "local `prefix` not found in compute_mask_inner")
+    prompt_slices_rule(ctx, "C13-R7")
+
